@@ -21,12 +21,7 @@ example : f14.map (fun p => (unpack p.1, unpack p.2)) =
      ("degrees_farenheit".toUTF8.toList.map UInt8.toNat, "degrees_fahrenheit".toUTF8.toList.map UInt8.toNat)] := by
   decide +kernel
 
-/-- **Reading rule R7, the complete list of what it drops today**: (type, constant, value) of the rows of the Types sheet that
-are deprecated aliases of another row of the same type with the same value. `C17_dedupe_exact` states that the rule
-(`TypeRow.drops`, evaluated on the spreadsheet alone) drops exactly these rows; a second such row — or the generator dropping
-anything else — breaks a theorem. -/
-def r7Dropped : List (Nat × Nat × Nat) := [(0x1776561746865725f7265706f7274, 0x1666f726563617374, 1)]
-
+/-- the packed numbers of `Fit.ProfileSpec.r7Dropped` (the complete list of what reading rule R7 drops) are these texts -/
 example : r7Dropped.map (fun p => (unpack p.1, unpack p.2.1, p.2.2)) =
     [("weather_report".toUTF8.toList.map UInt8.toNat, "forecast".toUTF8.toList.map UInt8.toNat, 1)] := by
   decide +kernel
